@@ -4,10 +4,11 @@
    real FdlActiveStations (harness/src/bus.rs).  The executable monitors are in BusOracle.v, their
    soundness w.r.t. the predicates of this file in Proofs/BusProofs.v.  No proofs here.
 
-   Time.  tx_start is in microseconds (the stack's clock).  All comparisons are exact: a time t
-   is compared as  t * rate  ("scaled", unit = microsecond * bit/s) and a number of bit times n as
-   n * 10^6, so that no rounding enters the monitors; "up to the 1 us clock resolution" of the
-   property text is the explicit slack `rate c` (= 1 us, scaled). *)
+   Time.  The harness reports times in microseconds (the stack's clock).  All comparisons are exact:
+   the driver turns the trace into a SCALED trace once (`scale`: every time multiplied by the bit
+   rate, unit = microsecond * bit/s) and a number of bit times n is compared as n * 10^6, so that
+   no rounding enters the monitors; "up to the 1 us clock resolution" of the property text is the
+   explicit slack `rate c` (= 1 us, scaled). *)
 From PB Require Export Common Telegram Params Rotation.
 
 Record btx : Set := mkTx {
